@@ -101,6 +101,12 @@ Definition round_up_count (total shift : Z) : Z :=
 Definition large_span_count (size : Z) : Z := round_up_count (u64 (size + SPAN_HEADER_SIZE)) SPAN_SIZE_SHIFT.
 Definition huge_pages (psh size : Z) : Z := round_up_count (u64 (size + SPAN_HEADER_SIZE)) psh.
 
+(* _rpmalloc_allocate_huge: a request whose size + header, rounded up to a page, does not fit in
+   size_t is refused (returns 0) when the guard is present in the source *)
+Definition huge_request (psh size : Z) : option Z :=
+  if HUGE_OVERFLOW_GUARD && (W64 - 1 - SPAN_HEADER_SIZE - 2 ^ psh <? size) then None
+  else Some (huge_pages psh size).
+
 (* block geometry inside a span *)
 Definition block_offset (bs idx : Z) : Z := SPAN_HEADER_SIZE + idx * bs.
 Definition address (span off : Z) : Z := span * SPAN_SIZE + off.
@@ -183,12 +189,14 @@ Definition fully (bc : Z) (st : span_st) : bool :=
   match sp_free st with [] => bc <=? sp_limit st | _ :: _ => false end.
 
 Inductive cres (A : Type) : Type :=
-| COk (a : A) | CErrOracle | CErrCorrupt | CErrBadFree | CErrUnmodelled.
+| COk (a : A) | CErrOracle | CErrCorrupt | CErrBadFree | CErrUnmodelled
+| CNull.   (* the allocator returns NULL (request refused); nothing changed *)
 Arguments COk {A} a.
 Arguments CErrOracle {A}.
 Arguments CErrCorrupt {A}.
 Arguments CErrBadFree {A}.
 Arguments CErrUnmodelled {A}.
+Arguments CNull {A}.
 
 (* free_list_partial_init: number of blocks put in play (first one returned, rest linked),
    in closed form: the while loop counts the j >= 2 with start + j*bs < block_end *)
@@ -331,6 +339,7 @@ Definition heap_allocate (psh : Z) (h : heap) (size e_span e_count : Z) : cres (
     | CErrCorrupt => CErrCorrupt
     | CErrBadFree => CErrBadFree
     | CErrUnmodelled => CErrUnmodelled
+    | CNull => CNull
     end
   | Large =>
     let need := large_span_count size in
@@ -338,10 +347,13 @@ Definition heap_allocate (psh : Z) (h : heap) (size e_span e_count : Z) : cres (
     else COk (mk_heap (h_classes h) ((e_span, BLarge e_count) :: h_big h), e_span, SPAN_HEADER_SIZE,
               usable_size psh (BLarge e_count))
   | Huge =>
-    let np := huge_pages psh size in
-    if range_in_use psh h e_span (big_units psh (BHuge np)) then CErrOracle
-    else COk (mk_heap (h_classes h) ((e_span, BHuge np) :: h_big h), e_span, SPAN_HEADER_SIZE,
-              usable_size psh (BHuge np))
+    match huge_request psh size with
+    | None => CNull
+    | Some np =>
+      if range_in_use psh h e_span (big_units psh (BHuge np)) then CErrOracle
+      else COk (mk_heap (h_classes h) ((e_span, BHuge np) :: h_big h), e_span, SPAN_HEADER_SIZE,
+                usable_size psh (BHuge np))
+    end
   end.
 
 Definition block_info_of (h : heap) (span : Z) : option blockinfo :=
@@ -363,11 +375,13 @@ Definition heap_free (h : heap) (span off : Z) : cres heap :=
     | CErrCorrupt => CErrCorrupt
     | CErrBadFree => CErrBadFree
     | CErrUnmodelled => CErrUnmodelled
+    | CNull => CNull
     end
   | Some _ => COk (mk_heap (h_classes h) (big_remove span (h_big h)))
   end.
 
-(* L_alloc.  ptr = None is the NULL pointer.  Result: heap, returned pointer (None after a free),
+(* L_alloc.  ptr = None is the NULL pointer.  Result: heap, returned pointer (None after a free, or
+   when a new block was refused: then the heap and the old block are unchanged and the flag is true),
    usable size, moved-or-new flag (false = same block returned in place). *)
 Definition l_alloc (psh : Z) (h : heap) (ptr : option (Z * Z)) (osize nsize e_span e_count : Z)
   : cres (heap * option (Z * Z) * Z * bool) :=
@@ -378,6 +392,7 @@ Definition l_alloc (psh : Z) (h : heap) (ptr : option (Z * Z)) (osize nsize e_sp
                      | COk h' => COk (h', None, 0, false)
                      | CErrOracle => CErrOracle | CErrCorrupt => CErrCorrupt
                      | CErrBadFree => CErrBadFree | CErrUnmodelled => CErrUnmodelled
+                     | CNull => CNull
                      end
     end
   else if negb (LALLOC_ALIGN <=? SMALL_GRANULARITY) || negb (LALLOC_FLAGS =? 0) then CErrUnmodelled
@@ -392,10 +407,12 @@ Definition l_alloc (psh : Z) (h : heap) (ptr : option (Z * Z)) (osize nsize e_sp
                            | COk h2 => COk (h2, Some (s, o), us, true)
                            | CErrOracle => CErrOracle | CErrCorrupt => CErrCorrupt
                            | CErrBadFree => CErrBadFree | CErrUnmodelled => CErrUnmodelled
+                           | CNull => CNull
                            end
         end
       | CErrOracle => CErrOracle | CErrCorrupt => CErrCorrupt
       | CErrBadFree => CErrBadFree | CErrUnmodelled => CErrUnmodelled
+      | CNull => COk (h, None, 0, true)       (* if (p && block) ... ; return block (NULL) *)
       end in
     match ptr with
     | None => fresh_alloc 0
